@@ -260,7 +260,9 @@ class PolicyOracle:
                 conn, e = own[idx]
                 self._r('acquire_mapped')
                 reqs = [x for x in emitted if x['h'] is not None and not x['h']['R']]
-                wrong = [x for x in reqs if x['dst'] != str(conn['peer_addr'])]
+                # (not the retransmission of a request to another peer that falls into the same iteration)
+                before = {x['data'] for x in self.wire.by_sender.get(N, [])[:cur['sent0']]}
+                wrong = [x for x in reqs if x['dst'] != str(conn['peer_addr']) and x['data'] not in before]
                 if wrong and len(cur['acq']) == 1 and not cur['others_readable']:
                     return self.viol('acquire_negotiated_with_wrong_peer', {}, f'{N}: ACQUIRE for policy index {idx} (peer {conn["peer_addr"]}) '
                                                                               f'made it send a request to {wrong[0]["dst"]}')
@@ -273,6 +275,17 @@ class PolicyOracle:
                     return self.viol('acquire_not_negotiated_on_idle_ike_sa', {}, f'{N}: ACQUIRE for index {idx} (peer {conn["peer_addr"]}) while an idle '
                                      f'ESTABLISHED IKE_SA with that peer exists, yet no CREATE_CHILD_SA request was sent in that iteration; table '
                                      f'{[(sa.state.name, len(sa.pending_events)) for sa in node.ike_sas()]}')
+                # no IKE_SA at all with that peer (whatever the daemon is doing with OTHER peers): a new one is started with it, now
+                if (str(conn['peer_addr']) not in cur['any_peers'] and len(cur['acq']) == 1 and not cur['others_readable'] and not cur['timer']
+                        and node.kernel.inject == {}):
+                    self._r('acquire_without_ike_sa_checked')
+                    if cur['any_peers']:
+                        self._r('acquire_without_ike_sa_while_others_exist')
+                    if not any(x['dst'] == str(conn['peer_addr']) and x['h']['exch'] == 34 for x in reqs):
+                        return self.viol('acquire_not_negotiated_with_its_peer', {'other_ike_sas': bool(cur['any_peers'])},
+                                         f'{N}: ACQUIRE for index {idx} (peer {conn["peer_addr"]}) with no IKE_SA with that peer in the table, yet no '
+                                         f'IKE_SA_INIT request to it was sent in that iteration (requests sent: {[(x["dst"], x["h"]["exch"]) for x in reqs]}); '
+                                         f'table {[(str(sa.peer_addr), sa.state.name, len(sa.pending_events)) for sa in node.ike_sas()]}')
                 # ... and one that is established but busy takes it into its queue: handing it to a half-open IKE_SA of our own, whose handshake
                 # may never complete, while an established IKE_SA with that peer exists is not re-using the IKE_SA
                 if len(cur['acq']) == 1 and not cur['others_readable'] and not cur['timer']:
@@ -367,6 +380,15 @@ def generate(seed, tier):
         for i, p in enumerate(conn['protect']):
             p['index'] = 7000 + i
         sc['nodes']['A']['conf']['to-q'] = conn
+        if r.random() < 0.5:
+            # ... and A's kernel sees traffic for Q shortly before the traffic for B: an IKE_SA with the silent Q stays half-open for about
+            # 20 s and is no business of the ACQUIREs that concern B
+            rq = next(c for c in configs.read_conf({'to-q': conn}).values())
+            pk0 = next((o_ for o_ in ops if o_['op'] == 'packet' and o_['node'] == 'A'), None)
+            if pk0 is not None:
+                ops.append({'t': round(max(0.95, pk0['t'] - r.choice([0.02, 0.3, 1.0])), 3), 'op': 'packet', 'node': 'A',
+                            'flow': configs.flow_for_entry(r, rq['my_addr'], rq['peer_addr'], rq['protect'][0])})
+                sc['meta']['silent_peer_traffic'] = True
     # some entries lose their explicit index (the daemon draws one)
     for nd in sc['nodes'].values():
         for conn in nd['conf'].values():
